@@ -18,6 +18,10 @@ m = {
  "engines": [
    {"name":"rtcverif","path":"harness","serves_properties":[c["property_id"] for c in CHECKS],
     "kind_free_text":"proptest-driven property checks, exhaustive small-alphabet enumerators, fault-injecting two-endpoint network rigs, reference models"},
+   {"name":"c07fuzz","path":"c07fuzz","serves_properties":["C07"],
+    "kind_free_text":"cargo-fuzz / libFuzzer project (14 targets with semantic oracles, ASan), driven by checks/C07.sh after the live-endpoint half"},
+   {"name":"c20-miri","path":"harness/src/props/c20_miri","serves_properties":["C20"],
+    "kind_free_text":"small crate generated under /verif/miri and run with cargo +nightly miri (seeded schedules) by the C20 check for the data-race / UB clause"},
  ],
  "checks": CHECKS,
  "not_applicable": NOT_YET,
